@@ -115,7 +115,8 @@ def _num(eng, name):
 
 
 def _value(eng, tag):
-    return eng.pick(["R", 0, 2], tag)
+    # domain values may be strings, numbers or tuples (e.g. positions)
+    return eng.pick(["R", 0, 2, (0, 1)], tag)
 
 
 def _special(eng, name, allow):
@@ -169,8 +170,17 @@ def message_cases(eng, tier):
 
     def dpop_value():
         inst = Instance(eng, spec("pair", "min"))
-        return dpop.DpopMessage("VALUE", ([inst.variables["x"], inst.variables["y"]], [0, 1]))
+        # the separator values may be of different kinds (plain value first, tuple later, ...)
+        return dpop.DpopMessage("VALUE", ([inst.variables["x"], inst.variables["y"]],
+                                          [_value(eng, "value_x"), _value(eng, "value_y")]))
     add("dpop.DpopMessage.VALUE", dpop_value)
+
+    def generic():
+        # a plain Message whose content is a list mixing plain values and objects
+        inst = Instance(eng, spec("pair", "min"))
+        items = [eng.pick(["a", 3, inst.variables["x"], (1, "b")], "item_%d" % i) for i in range(2)]
+        return comps.Message("generic", items)
+    add("computations.Message.list", generic)
 
     def sbb(cls):
         n = eng.choose(3 if tier == "quick" else 4, "path_len")
